@@ -218,7 +218,7 @@ def _main(args, pid, tier, seed, t0, modname, scratch):
             "samples": samples,
             "exhaustive": False,
             "conditions": [
-                {"name": c.name, "twin": c.twin, "bounds": c.bounds, "verdict": results[c.name].get("status"),
+                {"name": c.name, "twin": c.twin, "decided_by": "contract-validation (concrete run, no solver)" if c.concrete else "solver", "bounds": c.bounds, "verdict": results[c.name].get("status"),
                  "paths": results[c.name].get("paths"), "solver_queries": (results[c.name].get("solver") or {}).get("solver_queries"),
                  "solver_s": round(float((results[c.name].get("solver") or {}).get("solver_s", 0.0)), 2),
                  "analysis_s": results[c.name].get("analysis_s"), "why": results[c.name].get("why")}
